@@ -131,23 +131,64 @@ package adapter
 //@   each 0 invariant idxOK(a) && exceptSids != nil && salloc(exceptSids) && !was(salloc(exceptSids)) [C04.except.inv.fresh]
 //@   each 0 invariant forall r Room :: (r in a.rooms) ==> was(salloc(a.rooms[r])) [C04.except.inv.old.sets]
 //@   each 0 invariant forall s SocketID :: forall r Room :: rmem(a, s, r) == old(rmem(a, s, r)) [C04.except.inv.readonly]
+//@   each 0 invariant a.rooms == old(a.rooms) && a.sids == old(a.sids) && a.sockets == old(a.sockets) && (forall q Room :: ((q in a.rooms) == old(q in a.rooms)) && a.rooms[q] == old(a.rooms[q])) [C04.except.inv.index.untouched]
+//@   each 0 invariant forall t any :: forall y string :: was(salloc(t)) ==> smem(t, y) == was(smem(t, y)) && scard(t) == was(scard(t)) && salloc(t) [C04.except.inv.older.sets.untouched]
 //@   each 0 invariant forall s SocketID :: smem(exceptSids, s) == (exists r Room :: visited(r) && rmem(a, s, r)) [C04.except.inv.collects]
 //@   ensures exceptSids != nil && salloc(exceptSids) && !was(salloc(exceptSids)) [C04.except.fresh]
 //@   ensures forall s SocketID :: forall r Room :: rmem(a, s, r) == old(rmem(a, s, r)) [C04.except.readonly]
+//@   ensures idxOK(a) && a.rooms == old(a.rooms) && a.sids == old(a.sids) && a.sockets == old(a.sockets) && (forall q Room :: ((q in a.rooms) == old(q in a.rooms)) && a.rooms[q] == old(a.rooms[q])) [C04.except.index.untouched]
+//@   ensures forall t any :: forall y string :: was(salloc(t)) ==> smem(t, y) == was(smem(t, y)) && scard(t) == was(scard(t)) && salloc(t) [C04.except.older.sets.untouched]
 //@   ensures forall s SocketID :: forall r Room :: old(smem(exceptRooms, r)) && old(rmem(a, s, r)) ==> smem(exceptSids, s) [C04.except.complete]
 //@   ensures forall s SocketID :: smem(exceptSids, s) ==> (exists r Room :: old(smem(exceptRooms, r)) && old(rmem(a, s, r))) [C04.except.sound]
 //@ func (*inMemoryAdapter).computeExceptSids$1
 //@   holds a.mu
 //@   each 0 invariant idxOK(a) && exceptSids != nil && exceptSids == old(exceptSids) && salloc(exceptSids) && (forall q Room :: (q in a.rooms) ==> a.rooms[q] != exceptSids) [C04.except.room.inv.sets]
-//@   each 0 invariant a.rooms == old(a.rooms) && (forall q Room :: ((q in a.rooms) == old(q in a.rooms)) && a.rooms[q] == old(a.rooms[q])) [C04.except.room.inv.index]
+//@   each 0 invariant a.rooms == old(a.rooms) && a.sids == old(a.sids) && a.sockets == old(a.sockets) && (forall q Room :: ((q in a.rooms) == old(q in a.rooms)) && a.rooms[q] == old(a.rooms[q])) [C04.except.room.inv.index]
+//@   each 0 invariant forall t any :: forall y string :: t != exceptSids ==> smem(t, y) == old(smem(t, y)) && scard(t) == old(scard(t)) && salloc(t) == old(salloc(t)) [C04.except.room.inv.other.sets.untouched]
 //@   each 0 invariant forall s SocketID :: forall q Room :: rmem(a, s, q) == old(rmem(a, s, q)) [C04.except.room.inv.readonly]
 //@   each 0 invariant forall s SocketID :: smem(exceptSids, s) == (old(smem(exceptSids, s)) || visited(s)) [C04.except.room.inv.collects]
 //@ func (*inMemoryAdapter).DeleteAll$1
 //@   holds a.mu
+// The walk itself (targets given): the sockets handed to the callback are recorded in `ids`, and when the walk over
+// the target rooms is over `ids` holds EXACTLY the selected sockets - in some target room, in no excluded room, known
+// to the socket store - each handed over once however many target rooms it is in. Two nested iterator rules (target
+// rooms, members of one room). Assumption (interval semantics, see the check's assumptions): the callback does not
+// change the membership the walk is reading - the lock is released around it, so concurrent changes are possible.
+//@ func (*inMemoryAdapter).apply
+//@   opt safety off
+//@   requires a != nil && idxOK(a) && opts != nil && opts.Rooms != nil && opts.Except != nil && salloc(opts.Rooms) && salloc(opts.Except)
+//@   modifies *
+//@   ghost cb int = 0
+//@   ghost rec int = 0
+//@   callsite callback skip
+//@     requires !smem(exceptSids, sid) [C04.apply.all.never.an.excluded.socket]
+//@   each 0 invariant idxOK(a) && ids != nil && salloc(ids) && exceptSids != nil && salloc(exceptSids) && ids != exceptSids [C04.apply.inv.sets]
+//@   each 0 invariant forall q Room :: (q in a.rooms) ==> a.rooms[q] != ids && a.rooms[q] != exceptSids [C04.apply.inv.own.sets.apart]
+//@   each 0 invariant forall s SocketID :: forall q Room :: rmem(a, s, q) == old(rmem(a, s, q)) [C04.apply.inv.readonly]
+//@   each 0 invariant forall s SocketID :: smem(ids, s) ==> (exists r Room :: visited(r) && rmem(a, s, r)) && !smem(exceptSids, s) && spresent(a.sockets, s) [C04.apply.inv.served.are.selected]
+//@   each 0 invariant forall s SocketID :: forall r Room :: visited(r) && rmem(a, s, r) && !smem(exceptSids, s) && spresent(a.sockets, s) ==> smem(ids, s) [C04.apply.inv.selected.are.served]
 //@ func (*inMemoryAdapter).apply$1
 //@   holds a.mu
+//@   each 0 invariant idxOK(a) && ids != nil && ids == old(ids) && salloc(ids) && exceptSids != nil && exceptSids == old(exceptSids) && salloc(exceptSids) && ids != exceptSids && r != ids && r != exceptSids [C04.apply.room.inv.sets]
+//@   each 0 invariant a.rooms == old(a.rooms) && (forall q Room :: ((q in a.rooms) == old(q in a.rooms)) && a.rooms[q] == old(a.rooms[q])) && (forall q Room :: (q in a.rooms) ==> a.rooms[q] != ids && a.rooms[q] != exceptSids) [C04.apply.room.inv.index]
+//@   each 0 invariant forall s SocketID :: forall q Room :: rmem(a, s, q) == old(rmem(a, s, q)) [C04.apply.room.inv.readonly]
+//@   each 0 invariant forall s SocketID :: smem(exceptSids, s) == old(smem(exceptSids, s)) [C04.apply.room.inv.exclusions.fixed]
+//@   each 0 invariant a.sockets == old(a.sockets) && (forall y string :: spresent(a.sockets, y) == old(spresent(a.sockets, y))) [C04.apply.room.inv.store.fixed]
+//@   each 0 invariant forall s SocketID :: smem(ids, s) == (old(smem(ids, s)) || (visited(s) && !smem(exceptSids, s) && spresent(a.sockets, s))) [C04.apply.room.inv.serves.the.unexcluded.members]
+// One member of one target room: the callback runs only for a socket that was not served before and is not excluded,
+// and exactly the sockets it ran for are recorded as served (so a socket in several target rooms is served once).
 //@ func (*inMemoryAdapter).apply$1$1
 //@   holds a.mu
+//@   opt safety off
+//@   ghost cb int = 0
+//@   ghost rec int = 0
+//@   callsite callback skip
+//@     requires !smem(ids, sid) && !smem(exceptSids, sid) && cb == 0 [C04.apply.rooms.callback.only.for.unserved.unexcluded]
+//@     update cb = cb + 1
+//@   callsite Add
+//@     requires recv == ids && arg0 == sid && cb == 1 && rec == 0 [C04.apply.rooms.served.recorded]
+//@     update rec = rec + 1
+//@   ensures cb == rec && !result [C04.apply.rooms.every.served.socket.recorded]
 
 // ---------------------------------------------------------------------------------------------
 // C04. Broadcast operators are immutable values: To / Except return a NEW operator whose target / except set is the
